@@ -909,6 +909,7 @@ void ThreadPool::scheduleBulkToRings(
   // resizeLocked so we observe the freshly-constructed rings, not merely the
   // updated count.
   size_t ringCount = numRings_.load(std::memory_order_acquire);
+  DISPENSO_VERIF_HOOK(2); // between reading the ring count and pushing to the rings
   size_t tasksPerRing = (count + ringCount - 1) / ringCount;
 
   if (tasksPerRing <= 1) {
